@@ -109,7 +109,8 @@ Proof.
   intros s p rid om orc. destruct om as [m|]; [|reflexivity].
   unfold tstep. destruct (pop_ans orc) as [a rest].
   assert (CA : forall l, calls (map OAct l) = []) by (induction l; cbn; auto).
-  destruct (g_isreq m); destruct (ha_ret a); cbn [snd]; rewrite calls_app, CA; reflexivity.
+  destruct (g_isreq m); [destruct (is_cancel m); [reflexivity|]|]; cbn [andb];
+    destruct (ha_ret a); cbn [snd]; rewrite calls_app, CA; reflexivity.
 Qed.
 
 (* ---------- cleanup silences the channel ---------- *)
@@ -267,7 +268,7 @@ Proof. induction l as [|x l IH]; cbn; [reflexivity|]. f_equal. exact IH. Qed.
 (* messages queued while the requester was away are delivered once, on its next request *)
 Theorem pending_extensions_delivered_once :
   forall s p rid m c a,
-    g_isreq m = true ->
+    g_isreq m = true -> is_cancel m = false ->
     tlookup (p, ts_self s, g_tid m) (ts_chans s) = Some c -> tc_rcancel c = true -> ha_ret a <> HErr ->
     let k := (p, ts_self s, g_tid m) in
     let '(s', o) := tstep s (GIncomingRequest p rid (Some m)) [a] in
@@ -275,7 +276,7 @@ Theorem pending_extensions_delivered_once :
                 tc_req c' = Some rid) /\
     default_exts o = tc_pending c.
 Proof.
-  intros s p rid m c a Hreq L RC Hne. cbv zeta. unfold tstep, track. rewrite Hreq, L. cbn [pop_ans].
+  intros s p rid m c a Hreq Hnc L RC Hne. cbv zeta. unfold tstep, track. rewrite Hreq, Hnc, L. cbn [pop_ans andb].
   assert (F : forall (pre : list hookact) (post : list hookact) call,
              default_exts [call] = [] -> default_exts (map OAct pre) = [] -> default_exts (map OAct post) = [] ->
              default_exts ([call] ++ map OAct (pre ++ map (fun x : msg => ASendExt EDefault x) (tc_pending c) ++ post)) = tc_pending c).
@@ -411,7 +412,9 @@ Proof.
     rewrite tlookup_tremove_other by exact Hne. apply HI. exact H.
   - apply SC.
   - (* GIncomingRequest *)
-    destruct om as [m|]; [|exact HI]. destruct (pop_ans orc) as [a rest].
+    destruct om as [m|]; [|exact HI].
+    destruct (g_isreq m && is_cancel m); [exact HI|].
+    destruct (pop_ans orc) as [a rest].
     destruct (ha_ret a); cbn [fst]; try apply SC;
       intros k' H; cbn in *; apply maps_to_rset in H; destruct H as [->|H];
       try apply tlookup_tset_same_ne; apply tlookup_tset_other; apply HI; exact H.
